@@ -1,15 +1,45 @@
 // Lemmas about S-CAL (pure mathematics; no code from /repo)
 
+proof fn lemma_div_step(y: int, d: int)
+    requires
+        d == 4 || d == 100 || d == 400,
+    ensures
+        y / d == (y - 1) / d + if y % d == 0 { 1int } else { 0 },
+{
+    if d == 4 {
+        assert(y / 4 == (y - 1) / 4 + if y % 4 == 0 { 1int } else { 0 });
+    } else if d == 100 {
+        assert(y / 100 == (y - 1) / 100 + if y % 100 == 0 { 1int } else { 0 });
+    } else {
+        assert(y / 400 == (y - 1) / 400 + if y % 400 == 0 { 1int } else { 0 });
+    }
+}
+
+proof fn lemma_mod_chain(y: int)
+    ensures
+        y % 400 == 0 ==> y % 100 == 0,
+        y % 100 == 0 ==> y % 4 == 0,
+{
+}
+
 proof fn lemma_dby_step(y: int)
     ensures
         dby(1970) == 0,
         dby(y + 1) - dby(y) == ylen(y),
 {
-    assert(y / 4 == (y - 1) / 4 + if y % 4 == 0 { 1int } else { 0 });
-    assert(y / 100 == (y - 1) / 100 + if y % 100 == 0 { 1int } else { 0 });
-    assert(y / 400 == (y - 1) / 400 + if y % 400 == 0 { 1int } else { 0 });
-    assert(y % 400 == 0 ==> y % 100 == 0);
-    assert(y % 100 == 0 ==> y % 4 == 0);
+    lemma_div_step(y, 4);
+    lemma_div_step(y, 100);
+    lemma_div_step(y, 400);
+    lemma_mod_chain(y);
+    let a = (y - 1) / 4;
+    let b = (y - 1) / 100;
+    let c = (y - 1) / 400;
+    let i4: int = if y % 4 == 0 { 1 } else { 0 };
+    let i100: int = if y % 100 == 0 { 1 } else { 0 };
+    let i400: int = if y % 400 == 0 { 1 } else { 0 };
+    assert(dby(y + 1) == 365 * (y + 1 - 1970) + (a + i4) - (b + i100) + (c + i400) - 477);
+    assert(dby(y) == 365 * (y - 1970) + a - b + c - 477);
+    assert(ylen(y) == 365 + i4 - i100 + i400);
 }
 
 proof fn lemma_cum(m: int, lp: bool)
